@@ -127,6 +127,10 @@ func classify(err error) string {
 	if errors.As(err, &ue) {
 		return ClUser
 	}
+	var hp *HErrPtr
+	if errors.As(err, &hp) {
+		return ClUser // the typed-nil error value of Fn.EK == 2
+	}
 	root := dig.RootCause(err)
 	var pe dig.PanicError
 	if errors.As(root, &pe) {
